@@ -4,7 +4,7 @@ import json, subprocess, sys
 
 BUILT = {
  "C01": ("tables", "checksum monitor: arithmetic byte-sum oracle on the recorded output stream after every prefix of generated builder histories",
-         "Held on every observed prefix of ~44k (quick) / ~660k (thorough) generated builder programs over all 20 checksummed table kinds plus RSDP, including empty histories, repeated/diagonal cells and sweeps across the 0xFF/0xFFFF count and length carries; oracle is pure arithmetic and cannot be wrong. Not a proof: unbounded histories are sampled, carries at 2^24/2^32 are not reached.",
+         "Held on every observed prefix of ~110k (quick) / ~660k (thorough) generated builder programs over all 20 checksummed table kinds plus RSDP, including empty histories, repeated/diagonal cells and sweeps across the 0xFF/0xFFFF count and length carries; oracle is pure arithmetic and cannot be wrong. Not a proof: unbounded histories are sampled, carries at 2^24/2^32 are not reached.",
          "trusted: the harness's recording sink and the program generator; in-domain arguments only (C18 covers refusal)"),
  "C02": ("tables", "length monitor: Length field vs byte count of the recording sink after every prefix",
          "Same executions as C01; oracle is the sink's own byte count. Known finding F10 (RDPAS 17 bytes vs declared 16) is matched by an exact deviation model only.",
@@ -19,7 +19,7 @@ BUILT = {
          "Every returned handle equals the offset at which the reference/walker places that node, for random interleavings of handle-returning and other adds; every reference field resolves to a node of the expected type in each intermediate and final image.",
          "trusted: probe objects expose the handle value unchanged (IdMapping, MmioEndpoint, HartInfoNode, CacheNodeBuilder, ProcessorNode)"),
  "C14": ("tables+aml", "differential monitor across six sink implementations, repeated serialisation, raw in-memory form and u8sum",
-         "Each generated object is serialised twice and into Vec, byte-only, all-override, Checksum, Sdt and PackageBuilder sinks; streams must be identical; as_bytes() must equal the serialised stream for every Aml+IntoBytes type; u8sum must equal the arithmetic sum.",
+         "Each generated object is serialised twice and into Vec, byte-only, all-override, Checksum, Sdt and PackageBuilder sinks; streams must be identical; as_bytes() must equal the serialised stream for every Aml+IntoBytes type (table entries, whole tables, GAS, notification structure, RQSC resource ids, FACS); u8sum must equal the arithmetic sum; thorough adds a Miri stage.",
          "trusted: harness sinks; Sdt sink skipped above 6 KB (quadratic)"),
 
  "C06": ("aml", "online trace checker: independent ACPI-grammar parser over the emitted byte stream, compared with the canonicalised term tree",
@@ -44,7 +44,7 @@ BUILT = {
          "SLIT N<=5 (6 thorough) with all assignment sequences <= 2-3; HMAT all shapes 1..5 x 1..5 with all sequences <= 2; random larger shapes/histories incl. diagonal, mirrored, repeated, 1xn, nx1.",
          "trusted: 10-line cell-map model"),
  "C13": ("model", "reference-model monitor: Vec<u8> model with header rules vs as_slice/len/serialised stream after every operation; refusal monitor for out-of-range writes",
-         "Bounded-exhaustive sequences over a 67-operation alphabet from 4 initial lengths, random histories up to 300 ops; refused writes must leave the table unchanged.",
+         "Bounded-exhaustive sequences over a 72-operation alphabet from 4 initial lengths (incl. Length pre-set writes), random histories up to 300 ops incl. multi-KiB high-valued slices and usize::MAX offsets; refused writes must leave the table unchanged; thorough adds a Miri stage.",
          "trusted: 30-line byte-vector model; pushing zero bytes through the sink is not an append"),
  "C15": ("aml", "differential monitor between alternative construction paths of the real crate",
          "Scope::raw vs Scope::new for body sizes 0..4200 exhaustively x 6 path shapes (+2^20 neighbourhood in thorough) and generated child lists; PackageBuilder vs Package::new for 0..255 generated elements; &'static str vs String; usize vs u64.",
@@ -56,7 +56,7 @@ BUILT = {
          "All 256 states x 256 bytes x 5 single-byte entry points with inverse pairs; random histories of slice/byte/sink operations.",
          "trusted: wide-integer sum"),
  "C18": ("refusal", "panic monitor at 24 narrowing sites, at field maximum / maximum+1 / far beyond, in a release build and (child process) an overflow-checked build; framing oracles at the maximum",
-         "Each site must accept and correctly frame the field maximum and must panic one past it and far beyond, in both build profiles.",
+         "Each site must accept and correctly frame the field maximum and must panic one past it and far beyond (fixed and seeded-random amounts, incl. >= 2^32 for PkgLength), in both build profiles.",
          "trusted: field capacities of Appendix D; >= 4 GiB tables unreachable here"),
 }
 
